@@ -51,9 +51,7 @@ Definition fmt_udf_fe_size : Z := 176.
 (* ---- (a) UDFTag ---------------------------------------------------------------------------- *)
 (* tg_crclen is the desc_crc_length attribute: -1 after __init__/new, the parsed value after parse *)
 Record utag := mk_utag { tg_ident : Z; tg_version : Z; tg_serial : Z; tg_location : Z; tg_crclen : Z }.
-
 Definition tag_new (tag_ident tag_serial : Z) : utag := mk_utag tag_ident 2 tag_serial 0 (-1).
-
 (* crc_byte_len = len(crc_bytes); if self.desc_crc_length >= 0: crc_byte_len = self.desc_crc_length *)
 Definition tag_crc_byte_len (t : utag) (crc_bytes : list Z) : Z :=
   if 0 <=? tg_crclen t then tg_crclen t else zlen crc_bytes.
@@ -102,12 +100,9 @@ Definition verify_tag (d : list Z) : bool :=
 
 (* the checksum test alone, as done by parse *)
 Definition tag_csum_ok (hdr : list Z) : bool := udf_compute_csum hdr =? znth 4 hdr.
-
 (* ---- (b) allocation descriptors -------------------------------------------------------------- *)
 Record shortad := mk_shortad { sa_length : Z; sa_type : Z; sa_pos : Z }.
-
 Definition UDF_MAX_AD : Z := 1073739776.  (* 0x3ffff800 *)
-
 (* new(length): raises if length > 0x3fffffff *)
 Definition shortad_new (length : Z) : option shortad :=
   if length >? 1073741823 then None else Some (mk_shortad length 0 0).
@@ -129,12 +124,9 @@ Definition shortad_parse (data : list Z) : option shortad :=
   end.
 
 Record longad := mk_longad { la_length : Z; la_pos : Z; la_part : Z; la_impl : list Z }.
-
 Definition longad_new (length blocknum : Z) : longad := mk_longad length blocknum 0 (repeat 0 6%nat).
-
 Definition longad_fields (a : longad) : list (list Z) :=
   [le32 (la_length a); le32 (la_pos a); le16 (la_part a); pack_s 6 (la_impl a)].
-
 Definition longad_record (a : longad) : option (list Z) :=
   if u32_ok (la_length a) && u32_ok (la_pos a) && u16_ok (la_part a)
   then Some (concat (longad_fields a)) else None.
@@ -377,10 +369,8 @@ Record fentry := mk_fentry {
   fe_info_len : Z; fe_lbr : Z; fe_atime : list Z; fe_mtime : list Z; fe_attrtime : list Z;
   fe_ea_icb : longad; fe_impl_ident : list Z; fe_unique_id : Z; fe_len_ea : Z; fe_ea : list Z;
   fe_ads : list ad }.
-
 (* len_alloc_descs = 0; for desc in self.alloc_descs: len_alloc_descs += desc.length() *)
 Definition ads_length (ds : list ad) : Z := fold_left (fun acc d => acc + ad_length d) ds 0.
-
 (* the arguments of struct.pack(self.FMT, ...)[16:], one byte list per format item after the tag *)
 Definition fe_fields (e : fentry) (icbrec earec : list Z) (len_alloc_descs : Z) : list (list Z) :=
   [pack_s 20 icbrec; le32 (fe_uid e); le32 (fe_gid e); le32 (fe_perms e); le16 (fe_link_count e);
@@ -515,6 +505,14 @@ Definition fe_set_data_length (info_len : Z) (ds : list ad) (length : Z) : optio
     end
   else Some (length, ds).
 
+(* the same on the whole (info_len, log_block_recorded, alloc_descs) state of the File Entry *)
+Definition fe_set_data_length_st (st : Z * Z * list ad) (length : Z) : option (Z * Z * list ad) :=
+  let '(info_len, lbr, ds) := st in
+  match fe_set_data_length info_len ds length with
+  | Some (i, ds') => Some (i, lbr, ds')
+  | None => None
+  end.
+
 (* ---- executable checkers for the external differential harness ------------------------------- *)
 (* t = UDFTag(); t.new(ident, serial); t.tag_location = location; t.record(crc_bytes) == expected
    ([] = the call raised) *)
@@ -585,27 +583,16 @@ Definition check_parse_record_case (kind : Z) (b : list Z) : bool :=
   else false.
 
 (* indices (counted from k) of the cases on which model and Python disagree *)
-Fixpoint bad_tag_cases (k : nat) (cs : list (Z * Z * Z * list Z * list Z)) : list nat :=
+Fixpoint bad_idx {A} (chk : A -> bool) (k : nat) (cs : list A) : list nat :=
   match cs with
   | [] => []
-  | (i, s, l, c, e) :: r =>
-      if check_tag_case i s l c e then bad_tag_cases (S k) r else k :: bad_tag_cases (S k) r
+  | c :: r => if chk c then bad_idx chk (S k) r else k :: bad_idx chk (S k) r
   end.
-Fixpoint bad_fid_cases (k : nat) (cs : list (bool * bool * Z * list Z * Z * Z * Z * list Z)) : list nat :=
-  match cs with
-  | [] => []
-  | (d, p, en, fi, tl, nl, il, e) :: r =>
-      if check_fid_case d p en fi tl nl il e then bad_fid_cases (S k) r else k :: bad_fid_cases (S k) r
-  end.
-Fixpoint bad_fe_ads_cases (k : nat) (cs : list (Z * list (Z * Z))) : list nat :=
-  match cs with
-  | [] => []
-  | (l, e) :: r => if check_fe_ads_case l e then bad_fe_ads_cases (S k) r else k :: bad_fe_ads_cases (S k) r
-  end.
-Fixpoint bad_parse_record_cases (k : nat) (cs : list (Z * list Z)) : list nat :=
-  match cs with
-  | [] => []
-  | (kd, b) :: r =>
-      if check_parse_record_case kd b then bad_parse_record_cases (S k) r
-      else k :: bad_parse_record_cases (S k) r
-  end.
+Definition bad_tag_cases (k : nat) (cs : list (Z * Z * Z * list Z * list Z)) : list nat :=
+  bad_idx (fun '(i, s, l, c, e) => check_tag_case i s l c e) k cs.
+Definition bad_fid_cases (k : nat) (cs : list (bool * bool * Z * list Z * Z * Z * Z * list Z)) : list nat :=
+  bad_idx (fun '(d, p, en, fi, tl, nl, il, e) => check_fid_case d p en fi tl nl il e) k cs.
+Definition bad_fe_ads_cases (k : nat) (cs : list (Z * list (Z * Z))) : list nat :=
+  bad_idx (fun '(l, e) => check_fe_ads_case l e) k cs.
+Definition bad_parse_record_cases (k : nat) (cs : list (Z * list Z)) : list nat :=
+  bad_idx (fun '(kd, b) => check_parse_record_case kd b) k cs.
